@@ -1,3 +1,4 @@
+import os
 F = "ImageD11/sparseframe.py"
 SP = "src/sparse_image.c"
 VARIANTS = [
@@ -16,4 +17,5 @@ VARIANTS = [
  dict(name="default-itype-int32", kind="break", rule="C14.R5", file=F, old="    def __init__(self, row, col, shape, itype=np.uint16, pixels=None,", new="    def __init__(self, row, col, shape, itype=np.int32, pixels=None,"),
  dict(name="keep-overlaps-else-chain", kind="keep", file=SP, old="        if (p1 > p2)\n            i2++;\n        if (p1 < p2)\n            i1++;", new="        if (p2 < p1)\n            i2++;\n        if (p2 > p1)\n            i1++;"),
  dict(name="keep-guard-other-spelling", kind="keep", file=F, old="    if npx == 0: # there are no overlaps (and f2py refuses empty arrays)", new="    if not npx > 0:"),
+ dict(name="keep-overlaps-shortcut-when-row-ranges-strictly-disjoint", kind="keep", patch=os.path.join(os.path.dirname(os.path.abspath(__file__)), "patches", "c14_disjoint_rows_shortcut_strict.diff")),
 ]
